@@ -23,6 +23,16 @@ Definition as_cfg (s : sx) : option cfg :=
   | _ => None
   end.
 
+(* an image arrives as one or more string atoms (the check splits long images
+   into chunks: Prelude.read_str reverses its accumulator with the quadratic
+   List.rev) *)
+Fixpoint as_chunks (l : list sx) : option bytes :=
+  match l with
+  | [] => Some []
+  | XS b :: r => match as_chunks r with Some t => Some (b ++ t) | None => None end
+  | _ => None
+  end.
+
 Definition sx_out {T} (f : T -> list N -> list sx) (r : res (T * list N) * N) : sx :=
   match r with
   | (Ok (a, rest), k) => XL (XS (B"ok") :: f a rest ++ [sx_N k])
@@ -163,28 +173,28 @@ with sx_items (it : items) : list sx :=
 Definition run_ser : dispatcher := fun op args =>
   if opeq op "entries" then
     match args with
-    | [c; XS img] =>
-      match as_cfg c with
-      | Some c => Some (sx_out (fun (m : vars) rest => [XL (map (sx_entry (c_sz c)) m); sx_N (len_N rest)]) (de_vars c img))
-      | None => Some sx_bad
+    | c :: chunks =>
+      match as_cfg c, as_chunks chunks with
+      | Some c, Some img => Some (sx_out (fun (m : vars) rest => [XL (map (sx_entry (c_sz c)) m); sx_N (len_N rest)]) (de_vars c img))
+      | _, _ => Some sx_bad
       end
     | _ => Some sx_bad
     end
   else if opeq op "value" then
     match args with
-    | [c; XS img] =>
-      match as_cfg c with
-      | Some c => Some (sx_out (fun (v : value) rest => [XS (ser_value v); sx_N (len_N rest); XL (sx_flags (c_sz c) v)]) (de_value_top c img))
-      | None => Some sx_bad
+    | c :: chunks =>
+      match as_cfg c, as_chunks chunks with
+      | Some c, Some img => Some (sx_out (fun (v : value) rest => [XS (ser_value v); sx_N (len_N rest); XL (sx_flags (c_sz c) v)]) (de_value_top c img))
+      | _, _ => Some sx_bad
       end
     | _ => Some sx_bad
     end
   else if opeq op "dump" then
     match args with
-    | [c; XS img] =>
-      match as_cfg c with
-      | Some c => Some (sx_out (fun (m : vars) rest => [XL (map (fun kv => XL [XS (fst kv); sx_value (snd kv)]) m); sx_N (len_N rest)]) (de_vars c img))
-      | None => Some sx_bad
+    | c :: chunks =>
+      match as_cfg c, as_chunks chunks with
+      | Some c, Some img => Some (sx_out (fun (m : vars) rest => [XL (map (fun kv => XL [XS (fst kv); sx_value (snd kv)]) m); sx_N (len_N rest)]) (de_vars c img))
+      | _, _ => Some sx_bad
       end
     | _ => Some sx_bad
     end
